@@ -196,11 +196,14 @@ class FlipEnumParallel(ADEVPrimitive):
         (p_primal,) = Dual.tree_primal(dual_tree)
         (p_tangent,) = Dual.tree_tangent(dual_tree)
         sub_keys = jax.random.split(key, 2)
-        ret_primals, ret_tangents = jax.vmap(kdual)(
+        ret_duals = jax.vmap(kdual)(
             sub_keys,
-            (jnp.array([True, False]),),
-            (jnp.zeros_like(jnp.array([True, False]))),
+            Dual(
+                jnp.array([True, False]),
+                jnp.zeros_like(jnp.array([True, False])),
+            ),
         )
+        ret_primals, ret_tangents = ret_duals.primal, ret_duals.tangent
 
         def _inner(p, ret):
             return jnp.sum(jnp.array([p, 1 - p]) * ret)
